@@ -585,6 +585,17 @@ class Interp:
     def app(self, name, args):
         """Apply canonical elementwise function with light algebraic normalisation."""
         if name == 'id':
+            # float('inf') / float('nan') / float('-inf'): the constants np.inf / np.nan spell
+            a0 = args[0]
+            at = next(iter(a0.atoms()), None) if isinstance(a0, Rat) else None
+            if isinstance(at, App) and at.name == 'str' and len(at.args) == 1 and isinstance(at.args[0], str) and a0 == Rat.atom(at):
+                t_ = at.args[0].strip().lower()
+                if t_ in ('inf', '+inf', 'infinity', '+infinity'):
+                    return Rat.atom(App('inf', []))
+                if t_ in ('-inf', '-infinity'):
+                    return -Rat.atom(App('inf', []))
+                if t_ == 'nan':
+                    return Rat.atom(App('nan', []))
             return args[0]
         if name == 'square':
             return args[0] * args[0]
